@@ -67,7 +67,16 @@ func (id ID) ExtractPublicKey() (crypto.PubKey, error) {
 	if code != mhIdentity {
 		return nil, ErrNoPublicKey
 	}
-	return crypto.UnmarshalPublicKey(digest)
+	pk, err := crypto.UnmarshalPublicKey(digest)
+	if err != nil {
+		return nil, err
+	}
+	// reject other encodings of the same key (non-minimal varints, extra
+	// fields in the embedded key): the ID must be the one derived from pk.
+	if !id.MatchesPublicKey(pk) {
+		return nil, errors.New("peer id is not the canonical encoding of its public key")
+	}
+	return pk, nil
 }
 
 // IDFromBytes casts a byte slice to the ID type and validates that
